@@ -355,6 +355,26 @@ def bounded_interior(ck):
         r = check_events(g, u)
         if r is not None:
             fails.append({"obligation": "bounded.batch_size", "clause": "%s (batch of %d events)" % (r[1], nb), "input": {"altitude": 525.0, "events": nb, "u": u.tolist()}, "observed": r[2]})
+    # the numeric type of the random numbers does not matter: integers / booleans (corners of the cube) and float32 values give what the same
+    # values give as float64 (relational: no claim about the corners themselves, which are the recorded finding)
+    attrs = ("losPathLen", "thetaS", "latS", "longS", "costhetaNSubV", "costhetaTrSubN", "betaTrSubN", "event_mask")
+    for label, ux in (("int64", np.array([[0, 1, 1, 0], [1, 0, 1, 0], [0, 0, 1, 1], [1, 0, 0, 1]], dtype=np.int64)), ("bool", np.array([[0, 1, 1], [1, 0, 1], [0, 1, 1], [1, 1, 0]], dtype=bool)),
+                      ("float32", rng.uniform(0.1, 0.9, (4, 6)).astype(np.float32))):
+        for alt_ in (100.0, 10000.0, 525.0):
+            ga, gb = native_geom(alt_, 0.3, -1.1, np.radians(7.0)), native_geom(alt_, 0.3, -1.1, np.radians(7.0))
+            n += ux.shape[1]
+            try:
+                with np.errstate(all="ignore"):
+                    ga.throw(ux.copy())
+                    gb.throw(ux.astype(np.float64))
+                badk = [k for k in attrs if not np.allclose(np.asarray(getattr(ga, k), dtype=float), np.asarray(getattr(gb, k), dtype=float), rtol=1e-6 if label == "float32" else 1e-12, atol=1e-9, equal_nan=True)]
+                obs = {k: [np.asarray(getattr(ga, k), float)[:3].tolist(), np.asarray(getattr(gb, k), float)[:3].tolist()] for k in badk[:2]}
+            except Exception as ex:
+                badk, obs = ["raised"], "raised %r" % ex
+            if badk:
+                fails.append({"obligation": "bounded.input_types", "clause": "random numbers given as %s give the same events as the same values given as float64" % label, "input": {"altitude": alt_, "dtype": label, "u": ux.astype(float).tolist()},
+                              "observed": {"attributes that differ": badk, "given type vs float64": obs}})
+                break
     # history: a second throw on the same object, then positions along the trajectories, against a fresh object; and distances mixed in one call
     with np.errstate(all="ignore"):
         ua, ub = rng.uniform(0.05, 0.95, (4, 60)), rng.uniform(0.05, 0.95, (4, 80))
